@@ -122,6 +122,20 @@ theorem rhe_sticky_half (m s c r : Nat) (hs : 0 < s) (hr0 : 0 < r) (hr : r < c)
   generalize 2 ^ (s - 1) * c = H at *
   rw [rhe_of_split _ _ _ (by omega), if_pos (by omega)]
 
+/-- the same with a sticky part of up to `g ≤ 2^(s−1)` units (a significand that was shifted left by
+`log2 g` bits before the truncated digits are accounted for) -/
+theorem rhe_sticky_half_wide (m s c r g : Nat) (hs : 0 < s) (hr0 : 0 < r) (hr : r < g * c)
+    (hg : g ≤ 2 ^ (s - 1)) (hhalf : m % 2 ^ s = 2 ^ (s - 1)) :
+    rhe (m * c + r) (2 ^ s * c) = m / 2 ^ s + 1 := by
+  have e : 2 ^ s = 2 * 2 ^ (s - 1) := by
+    rw [← Nat.pow_succ']; congr 1; omega
+  rw [sticky_split m s c r, hhalf]
+  have eD : 2 ^ s * c = 2 * (2 ^ (s - 1) * c) := by rw [e, Nat.mul_assoc]
+  rw [eD]
+  have hgc : g * c ≤ 2 ^ (s - 1) * c := Nat.mul_le_mul_right c hg
+  generalize 2 ^ (s - 1) * c = H at *
+  rw [rhe_of_split _ _ _ (by omega), if_pos (by omega)]
+
 /-- sticky part below the half-way point rounds down -/
 theorem rhe_sticky_below (m s c r : Nat) (hs : 0 < s) (hr : r < c)
     (hlow : m % 2 ^ s < 2 ^ (s - 1)) : rhe (m * c + r) (2 ^ s * c) = m / 2 ^ s := by
